@@ -33,9 +33,10 @@ STYLE_PROPS = ["FontWeight", "FontStyle", "TextDecoration", "Color", "Background
                "Display"]
 TEXT = gen_model.profile(style_density=(0, 2), max_nodes=36, fanout=3, br_styles=False, arbitrary_times=False, anim_on_offset=False,
                          props=STYLE_PROPS, hiding=True, text_ws=True, xml_safe=True, doc_params=False, anim_counts=(0, 0, 0, 1),
-                         exotic_numbers=False, edges=False, preserve=False, timed_regions=False, body_divs=(1, 5), time_density=8)
+                         exotic_numbers=False, edges=False, preserve=False, timed_regions=False, body_divs=(1, 5), time_density=8,
+                         time_shifts=[Fraction(0), Fraction(0), Fraction(0), Fraction(59), Fraction(3599), Fraction(86399), Fraction(359990)])
 TEXT_PRESERVE = gen_model.profile(**dict(TEXT, preserve=True, max_nodes=24))
-SUBMS = gen_model.profile(**dict(TEXT, arbitrary_times=True, max_nodes=14, time_density=3))
+SUBMS = gen_model.profile(**dict(TEXT, arbitrary_times=True, max_nodes=14, time_density=3, time_shifts=None))
 SHRINK = gen_model.case_simplifications("spec")
 
 SRT_CFGS = {"srt": None, "srt-noformat": SRTWriterConfiguration(text_formatting=False)}
